@@ -180,6 +180,9 @@ def main(argv):
             "excluded_small_decision_margin": ctx.excluded_small_margin,
             "known_findings_hit": ctx.known_hits,
             "generated_constants": gen_info,
+            "source_tie": {"models_validated_against_repo_commit": ctx.validated_commit,
+                           "files_differing_from_that_record": ctx.changed_files,
+                           "budget": f"quick x{cm.BOOST} (tree differs from the validated record)" if ctx.boost else tier},
             "correspondence_failures": len(tie), "oracle_failures": len(unknown_oracle),
             "notes": ctx.notes,
         },
